@@ -20,6 +20,7 @@ impl EventGen for ReuseElement {
         // we later resolve those on the target element in the context
         // of any vars set by this.
         reuse_element.eval_attributes(context)?;
+        context.check_scope_vars(&self.0, &reuse_element)?;
 
         context.push_element(&reuse_element);
         let elref = reuse_element
